@@ -254,9 +254,12 @@ fn check_buffered(input: &[u8], cuts: Vec<usize>, loc: &mut Local) -> Result<(),
     let mut t = Tiler::new(input);
     let mut buf = Vec::new();
     loc.buffered += 1;
-    for _ in 0..call_bound(input.len()) + 2 {
+    for call in 0..call_bound(input.len()) + 2 {
         let p0 = r.buffer_position();
-        buf.clear();
+        // the caller's buffer may be reused without clearing it: every other call here
+        if (call + input.len()) % 2 == 0 {
+            buf.clear();
+        }
         let res = r.read_event_into(&mut buf);
         let owned: Result<Event<'static>, quick_xml::Error> = res.map(|e| e.into_owned());
         let p1 = r.buffer_position();
